@@ -45,3 +45,33 @@ pub fn element_set_ops<TC: Configuration>(
     let unsorted = ops::<TC>(AzksElementSet::Unsorted(nodes), prefix);
     (natural, unsorted)
 }
+
+// ---------------------------------------------------------------------------------------------
+// Scheduling points: places between two statements that perform no storage operation, at which an
+// external harness may want to let another task run. Without an installed hook they do nothing.
+
+use std::future::Future;
+use std::pin::Pin;
+use std::sync::{Arc, OnceLock, RwLock};
+
+/// The type of an installable scheduling hook
+pub type SchedHook =
+    Arc<dyn Fn(&'static str) -> Pin<Box<dyn Future<Output = ()> + Send>> + Send + Sync>;
+
+static SCHED_HOOK: OnceLock<RwLock<Option<SchedHook>>> = OnceLock::new();
+
+/// Install (or remove) the scheduling hook
+pub fn set_sched_hook(hook: Option<SchedHook>) {
+    let cell = SCHED_HOOK.get_or_init(|| RwLock::new(None));
+    *cell.write().unwrap() = hook;
+}
+
+/// Called by the library at a scheduling point
+pub async fn sched_point(name: &'static str) {
+    let hook = SCHED_HOOK
+        .get()
+        .and_then(|cell| cell.read().unwrap().clone());
+    if let Some(h) = hook {
+        h(name).await;
+    }
+}
